@@ -59,9 +59,11 @@ def _seed_dropped_when_zero(v: Any) -> Any:
     if isinstance(v, tuple):
         if v[:2] == ("app", "binascii.crc_hqx") and len(v) == 4:
             sd = v[3]
-            if isinstance(sd, tuple) and sd[:1] == ("or",) and len(sd) == 3:
-                first, second = (x[1] if isinstance(x, tuple) and x[:1] == ("valof",) else x for x in sd[1:])
-                if T.is_c(second) and isinstance(second[1], int) and second[1] != 0 and isinstance(first, tuple) and first[:2] == ("app", "binascii.crc_hqx"):
+            if isinstance(sd, tuple) and sd[:1] == ("ite",) and len(sd) == 4:
+                # `running or K` as a value: ite(running != 0, running, K)
+                first, second = sd[2], sd[3]
+                tests_first = sd[1] in (("cmp", "!=", first, T.c(0)), ("truthy", first))
+                if tests_first and T.is_c(second) and isinstance(second[1], int) and second[1] != 0 and isinstance(first, tuple) and first[:2] == ("app", "binascii.crc_hqx"):
                     return ("or", first, second)
         for x in v:
             r = _seed_dropped_when_zero(x)
